@@ -544,10 +544,9 @@ func grpcExtractErrorFromTrailer(trailers http.Header) *connect.Error {
 	if len(grpcDetails) == 0 {
 		message, err := grpcPercentDecode(grpcMsg)
 		if err != nil {
-			return connect.NewError(
-				connect.CodeInternal,
-				protocolError("invalid grpc-message trailer: %w", err),
-			)
+			// An invalid escape must neither fail the call nor lose the status:
+			// the message is delivered in its raw, still encoded, form.
+			message = grpcMsg
 		}
 		return connect.NewWireError(connect.Code(code), errors.New(message))
 	}
